@@ -230,6 +230,29 @@ def run(ctx):
     with cf.ThreadPoolExecutor(max_workers=8) as ex:
         exes = list(ex.map(lambda s: C10.build_schema(b, s, ctx.work), schemas))
     ctx.cov["correspondence"]["schema libraries"] = {"n": nschemas, "wall_s": round(time.time() - t0, 1)}
+    # the hierarchy the generated schema init code registered (h_lazy `registry`): the supertype lists are the ones sent to the model
+    # (hypothesis SameHierarchy of C11_candidate_entities_generated) and the registered subtype lists are their inverse (what
+    # C11_registry_subtypes_inverse derives from C02's model of the init code)
+    nreg = 0
+    for si, s in enumerate(schemas):
+        rc, out, err = C10.run_h(exes[si], env, "-", 0, "registry")
+        reg = {}
+        for l in out:
+            m = re.match(r"ENT (\S+) SUPS(.*) SUBS(.*)$", l)
+            if m:
+                reg[m.group(1).lower()] = ([x.lower() for x in m.group(2).split()], [x.lower() for x in m.group(3).split()])
+        want = {e["name"]: G.sups_of(e) for e in s["entities"]}
+        nreg += len(reg)
+        if rc != 0 or "END" not in out or set(reg) != set(want):
+            ctx.broken.append((f"registry dump of schema {s['name']}", f"rc={rc}: registered entities {sorted(reg)[:8]}.. vs schema {sorted(want)[:8]}.. {err.strip()[-200:]}"))
+            continue
+        for n, (sups, subs) in reg.items():
+            inv = sorted(x for x in want if n in want[x])
+            if sups != want[n] or sorted(subs) != inv:
+                ctx.violation("registry-hierarchy", f"schema {s['name']}, entity {n}: registered supertypes {sups} (declared {want[n]}), registered subtypes "
+                              f"{sorted(subs)} (entities naming it as supertype: {inv})", {"schema": G.express(s), "entity": n})
+                break
+    ctx.cov["correspondence"]["registry hierarchy"] = {"entities": nreg, "schemas": nschemas}
     jobs = []
     for si, s in enumerate(schemas):
         for pi in range(npops):
